@@ -11,9 +11,27 @@ import (
 
 // zzBranch draws one object branch over the property names {a, b}: which of them it
 // declares, which it requires, and symbolic string-length constraints on each.
-func zzBranch() (*schemas.Type, *zzSpec) {
+func zzBranch(idx int) (*schemas.Type, *zzSpec) {
 	t := &schemas.Type{Type: schemas.TypeList{"object"}, Properties: map[string]*schemas.Type{}}
 	s := &zzSpec{kind: "object", props: map[string]*zzSpec{}, required: map[string]bool{}}
+	if zzvrt.Param("NESTED", 0) == 1 {
+		// every branch declares the SAME object-valued property o and adds its own member
+		// (k0, k1, ...) to it, required or not: the nested schemas must be merged, too
+		k := "k" + strconv.Itoa(idx)
+		inner := &schemas.Type{Type: schemas.TypeList{"object"}, Properties: map[string]*schemas.Type{k: {Type: schemas.TypeList{"string"}}}}
+		is := &zzSpec{kind: "object", props: map[string]*zzSpec{k: {kind: "string"}}, order: []string{k}, required: map[string]bool{}}
+		if zzvrt.Bool() {
+			inner.Required = []string{k}
+			is.required[k] = true
+		}
+		t.Properties["o"] = inner
+		s.props["o"], s.order = is, []string{"o"}
+		if zzvrt.Bool() {
+			t.Required = []string{"o"}
+			s.required["o"] = true
+		}
+		return t, s
+	}
 	var names []string
 	switch zzvrt.Choice(zzvrt.Param("NAMES", 3)) {
 	case 0:
@@ -61,7 +79,7 @@ func HarnessC11() {
 		cls = "anyOf"
 	}
 	for i := 0; i < nb; i++ {
-		bt, bs := zzBranch()
+		bt, bs := zzBranch(i)
 		specs = append(specs, bs)
 		if r := zzvrt.Param("REF", 1); r == 2 || (r == 1 && zzvrt.Bool()) {
 			name := "Branch" + strconv.Itoa(i)
@@ -121,6 +139,11 @@ func HarnessC11() {
 	for _, m := range []string{"a", "b"} {
 		zzvrt.Assume(zzvrt.Or(zzvrt.DIs(d, "x/"+m, zzvrt.KAbsent), zzvrt.DIs(d, "x/"+m, zzvrt.KString)))
 	}
+	zzvrt.Assume(zzvrt.Or(zzvrt.DIs(d, "x/o", zzvrt.KAbsent), zzvrt.DIs(d, "x/o", zzvrt.KObject)))
+	for i := 0; i < nb; i++ {
+		m := "x/o/k" + strconv.Itoa(i)
+		zzvrt.Assume(zzvrt.Or(zzvrt.DIs(d, m, zzvrt.KAbsent), zzvrt.DIs(d, m, zzvrt.KString)))
+	}
 	_, accepted, ok := zzRunT("C11", h, g.getRootTypeName(sch, "root.json"), "json", d)
 	if !ok {
 		return
@@ -128,16 +151,23 @@ func HarnessC11() {
 	zzvrt.Cover("shape:" + cls)
 	all, some := true, false
 	allB, someB := true, false
+	allReq, allOthers := true, true
 	for _, bs := range specs {
 		f := zzValue(d, "x", bs, n, 0)
+		allReq = zzvrt.And(allReq, f.req)
+		allOthers = zzvrt.And(allOthers, f.others("req"))
 		all = zzvrt.And(all, f.all())
 		some = zzvrt.Or(some, f.all())
 		allB = zzvrt.And(allB, f.allBytes())
 		someB = zzvrt.Or(someB, f.allBytes())
 	}
+	nested := zzvrt.Param("NESTED", 0) == 1
 	if anyOf {
 		zzvrt.Assume(zzvrt.Iff(some, someB)) // outside the byte/rune length finding (C06)
-		zzvrt.Check("C11.anyOf-is-disjunction", zzvrt.Iff(accepted, some))
+		// recorded finding: the union struct types an object-valued property declared by several
+		// branches with the FIRST branch's nested type, whose own rules then apply to every document
+		zzvrt.Check("C11.anyOf-is-disjunction", zzvrt.Iff(accepted, some),
+			zzvrt.Dev{Name: "anyOf-nested-object-typed-by-first-branch", Cond: nested})
 	} else {
 		zzvrt.Assume(zzvrt.Iff(all, allB))
 		// recorded finding: when two branches state the SAME keyword on the same property, the
@@ -154,6 +184,13 @@ func HarnessC11() {
 				}
 			}
 		}
-		zzvrt.Check("C11.allOf-is-conjunction", zzvrt.Iff(accepted, all), zzvrt.Dev{Name: "allOf-same-keyword-first-branch-wins", Cond: same})
+		// recorded finding: when the first branch is a $ref, the nested object it shares with
+		// later branches keeps the Go type generated for the definition BEFORE the merge
+		stale := zzvrt.Dev{Name: "allOf-ref-first-nested-object-keeps-stale-type", Cond: nested && branches[0].Ref != ""}
+		zzvrt.Check("C11.allOf-is-conjunction", zzvrt.Iff(accepted, all), zzvrt.Dev{Name: "allOf-same-keyword-first-branch-wins", Cond: same}, stale)
+		if !same {
+			// C04: a key required by ANY branch (at any depth of the merged object) is required
+			zzvrt.Check("C04.allOf.required-of-every-branch", zzvrt.Implies(allOthers, zzvrt.Iff(accepted, allReq)), stale)
+		}
 	}
 }
